@@ -36,7 +36,8 @@ REQUIRED_BUCKETS = ["outcome:ret", "outcome:exc", "outcome:base", "outcome:block
                     "helper:on-cancel-exc", "helper:done-exception", "stop-during-run",
                     "stop-during-restart-delay", "stop-before-start", "stop-after-completion", "double-start",
                     "cancel-swallowed", "cancel-converted-to-exception", "extra-task", "service-multi-task",
-                    "run-group", "run-group:actors-share-a-name", "restart-after-done"]
+                    "run-group", "run-group:actors-share-a-name", "restart-after-done",
+                    "service-as-context-manager:body-raises", "service-as-context-manager:task-error-at-exit"]
 REQUIRED_COUNTERS = ["run_enters_observed", "external_calls_observed", "cases_run"]
 ASSUMPTIONS = ["virtual time; probe actor with scripted _run"]
 
@@ -88,6 +89,12 @@ def gen(rng: Any, tier: str, i: int) -> Any:
         return {"kind": "helper", "state": rng.choice(["running", "running", "running", "done-result", "done-exception"]),
                 "on_cancel": rng.choice(["propagate", "exc", "exc-after-cleanup", "swallow"]),
                 "cleanup": rng.choice([0.0, 0.5, 3.0])}
+    if kind == "service" and rng.random() < 0.35:
+        # the service used as a context manager: leaving the block (normally or through an exception of the body)
+        # stops it, and that stop surfaces the errors of its tasks like any other stop
+        return {"kind": "ctx", "tasks": [{"d": rng.choice([0.5, 1.0, 3.0, 100.0]), "outcome": rng.choice(["ret", "exc", "exc", "block"]),
+                                          "on_cancel": rng.choice(["propagate", "propagate", "exc"])} for _ in range(rng.randint(1, 3))],
+                "body_d": rng.choice([0.25, 2.0, 5.0]), "body": rng.choice(["ok", "raise", "raise"])}
     if kind == "service":
         tasks = [{"d": rng.choice([0.0, 1.0, 3.0, 100.0]), "outcome": rng.choice(["ret", "exc", "exc2", "block", "base"]),
                   "on_cancel": rng.choice(["propagate", "propagate", "swallow", "exc"])} for _ in range(rng.randint(1, 4))]
@@ -573,6 +580,74 @@ def _judge_group(case: dict[str, Any], log: dict[str, Any], rec: Any) -> None:
     rec.observed({"returned_at": log["returned_at"], "last_exit": last_exit})
 
 
+class _BodyError(Exception):
+    pass
+
+
+async def _drive_ctx(case: dict[str, Any], out: dict[str, Any]) -> None:
+    import asyncio
+
+    from frequenz.sdk.actor import BackgroundService
+
+    loop = asyncio.get_event_loop()
+
+    async def work(spec: dict[str, Any], idx: int) -> None:
+        try:
+            if spec["outcome"] == "block":
+                await asyncio.sleep(1e6)
+            await asyncio.sleep(spec["d"])
+            if spec["outcome"] == "exc":
+                raise ValueError(f"task {idx}")
+        except asyncio.CancelledError:
+            if spec["on_cancel"] == "exc":
+                raise RuntimeError("while cancelled") from None
+            raise
+
+    class Svc(BackgroundService):
+        def start(self) -> None:
+            for i, sp in enumerate(case["tasks"]):
+                self._tasks.add(asyncio.create_task(work(sp, i)))
+
+    svc = Svc(name="ctx")
+    t0 = loop.time()
+    tasks: set[Any] = set()
+    try:
+        async with svc:
+            tasks = set(svc.tasks)
+            await asyncio.sleep(case["body_d"])
+            if case["body"] == "raise":
+                raise _BodyError("body failed")
+        out["raised"] = None
+    except BaseException as e:  # pylint: disable=broad-except
+        out["raised"] = type(e).__name__
+        if isinstance(e, BaseExceptionGroup):
+            out["group"] = sorted(type(x).__name__ for x in e.exceptions)
+    out["left_at"] = loop.time() - t0
+    out["all_done"] = all(t.done() for t in tasks)
+    out["errors"] = sorted(type(t.exception()).__name__ for t in tasks
+                           if t.done() and not t.cancelled() and t.exception() is not None)
+    svc.cancel()
+
+
+def _judge_ctx(case: dict[str, Any], out: dict[str, Any], rec: Any) -> None:
+    rec.bucket("service-as-context-manager")
+    if case["body"] == "raise":
+        rec.bucket("service-as-context-manager:body-raises")
+    w = {"case": case, "observed": out}
+    rec.nontrivial(True)
+    rec.observed(out)
+    if not out.get("all_done"):
+        rec.violation("context-exit-returned-before-all-tasks-finished", w)
+        return
+    got = [x for x in out.get("group", []) if x != "CancelledError"]
+    if out["errors"]:
+        rec.bucket("service-as-context-manager:task-error-at-exit")
+        if out["raised"] not in ("BaseExceptionGroup", "ExceptionGroup") or sorted(got) != out["errors"]:
+            rec.violation("context-exit-does-not-surface-the-task-errors", {**w, "task_errors": out["errors"]})
+    elif out["raised"] not in (None, "_BodyError", "BaseExceptionGroup", "ExceptionGroup"):
+        rec.violation("context-exit-raised-something-else", w)
+
+
 class _HelperBoom(Exception):
     pass
 
@@ -653,6 +728,11 @@ def _judge_helper(case: dict[str, Any], out: dict[str, Any], rec: Any) -> None:
 def check(case: dict[str, Any], rec: Any) -> None:
     mon = LoopMonitor()
     rec.count("cases_run")
+    if case["kind"] == "ctx":
+        cout: dict[str, Any] = {}
+        run_virtual(lambda: _drive_ctx(case, cout), monitor=mon)
+        _judge_ctx(case, cout, rec)
+        return
     if case["kind"] == "helper":
         hout: dict[str, Any] = {}
         run_virtual(lambda: _drive_helper(case, hout), monitor=mon)
